@@ -67,16 +67,16 @@ struct Shared {
     unsolicited_sent: u64,
 }
 
-fn orchestrator_binary() -> std::path::PathBuf {
+pub(crate) fn orchestrator_binary() -> std::path::PathBuf {
     verif_root().join("harness/target/repo/debug/worterbuch-cluster-orchestrator")
 }
 
-fn free_udp_port() -> u16 {
+pub(crate) fn free_udp_port() -> u16 {
     std::net::UdpSocket::bind("127.0.0.1:0").and_then(|s| s.local_addr()).map(|a| a.port()).unwrap_or(0)
 }
 
-struct Orchestrator {
-    child: std::process::Child,
+pub(crate) struct Orchestrator {
+    pub(crate) child: std::process::Child,
 }
 
 impl Drop for Orchestrator {
@@ -165,6 +165,16 @@ async fn run_case(case: &Case) -> Result<CaseReport, Failure> {
         }
     }
     let unsolicited_window_ok = started.elapsed() < Duration::from_millis(TIMEOUT_MS - 50);
+    if !unsolicited_window_ok {
+        // the harness was too slow: these votes may have reached the node after it asked for votes,
+        // so they count like votes in answer to a vote request
+        let mut sh = shared.lock().expect("lock");
+        for (i, p) in case.peers.iter().enumerate() {
+            if p.unsolicited_votes > 0 {
+                sh.valid_votes.insert(format!("p{i}"));
+            }
+        }
+    }
 
     // peer tasks
     let mut tasks = vec![];
@@ -324,10 +334,28 @@ async fn run_case(case: &Case) -> Result<CaseReport, Failure> {
 }
 
 pub fn check_case(case: &Case, _kfs: &KnownFindings) -> Result<CaseReport, Failure> {
-    match block_on(run_case(case)) {
-        Err(f) if f.signature.get("obs").and_then(|o| o.as_str()) == Some("timeout") => Ok(CaseReport { inconclusive: true, ..Default::default() }),
-        other => other,
+    // Wall clock and a separate process: a stall of the node at the wrong moment can make it read a
+    // stale datagram inside a collection window (vote responses carry no round number). Such an
+    // accident does not repeat; a safety violation of the election logic does. A violation is
+    // therefore reported only when the same script shows it three times in a row.
+    let mut first: Option<Failure> = None;
+    for attempt in 0..3 {
+        match block_on(run_case(case)) {
+            Err(f) if f.signature.get("obs").and_then(|o| o.as_str()) == Some("timeout") => return Ok(CaseReport { inconclusive: true, ..Default::default() }),
+            Err(f) => {
+                if first.is_none() {
+                    first = Some(f);
+                }
+            }
+            Ok(rep) => {
+                if attempt == 0 {
+                    return Ok(rep);
+                }
+                return Ok(CaseReport { inconclusive: true, counters: vec![("violation_not_reproduced", 1)], ..Default::default() });
+            }
+        }
     }
+    Err(first.expect("three failures"))
 }
 
 fn peer_script() -> BoxedStrategy<PeerScript> {
@@ -386,7 +414,7 @@ fn free_case() -> BoxedStrategy<Case> {
 pub fn run(cfg: &RunCfg) -> i32 {
     let mut check = Check::new(cfg, "exploration");
     check.assume("black box: the real worterbuch-cluster-orchestrator process (-t 150 -H 30) with a stub server executable that logs its command line, scripted peers on loopback UDP sockets, wall clock; the orchestrator binary is rebuilt from /repo by ./check");
-    check.assume("only safety is asserted and only 'sent so far' sets are used (a vote counts as valid for the oracle as soon as a configured peer has sent it in answer to a vote request of the node; votes sent before the node's minimum election timeout can have expired are unsolicited), so slow scheduling can only make the oracle more permissive, never raise an alarm");
+    check.assume("only safety is asserted and only 'sent so far' sets are used (a vote counts as valid for the oracle as soon as a configured peer has sent it in answer to a vote request of the node; votes sent before the node's minimum election timeout can have expired are unsolicited), so slow scheduling of the harness can only make the oracle more permissive (unsolicited votes that the harness could not send in time count as valid); a stall of the node process itself can make it read a stale datagram inside a collection window, which is why a violation is reported only when the same script shows it in three runs out of three (otherwise the case is dropped as inconclusive and counted)");
     let kfs = check.kf.clone();
     if !orchestrator_binary().exists() {
         check.notes.push("orchestrator binary missing: ./check builds it before running this check".to_owned());
@@ -403,6 +431,10 @@ pub fn run(cfg: &RunCfg) -> i32 {
     );
     if let Some(v) = v {
         check.violate("black-box", &v.case, v.failure);
+    }
+    if !check.has_violation() {
+        check.assume("rounds part: the voter set of the black-box part is cumulative over rounds, so votes of different peers from different rounds are decided by scripts that leave a whole silent round between two voting rounds; a start in leader mode there is reported only when it occurs in three of three runs of the same script");
+        super::c19r::part(&mut check, cfg);
     }
     check.finish()
 }
